@@ -217,7 +217,8 @@ def one_document(ctx, world, size, collect):
     doc = vo.gen_document(rng, world.desc, size=size)
     for ft in doc.pop("_features", []):
         ctx.stat("valid-feature:" + ft.rsplit("-levels", 1)[0])
-        ctx.stat("valid-feature-levels:" + ft.rsplit("-levels-", 1)[1])
+        if "-levels-" in ft:
+            ctx.stat("valid-feature-levels:" + ft.rsplit("-levels-", 1)[1])
     text = vo.to_text(doc)
     base = real_chain(world.schema, text)
     ctx.count()
